@@ -336,6 +336,20 @@ def make_source(kind, encoding="utf-8"):
     return IOX.path_source("swc_file")
 
 
+NEUTRAL_OPEN_OPTIONS = {
+    # options of open() / io.TextIOWrapper that do not change WHICH text is delivered or whether undecodable bytes raise: buffering
+    # strategy, explicit defaults, and universal-newline variants that still end a line at every "\n" (the line grammar takes "\r"
+    # as a blank).  Everything else -- errors="ignore"/"replace"/..., newline="\r", a different encoding -- counts.
+    "line_buffering": (True, False), "write_through": (True, False), "buffering": (-1, 1, 4096, 8192, 65536, 1 << 20), "errors": (None, "strict"),
+    "newline": (None, "", "\n", "\r\n"), "closefd": (True,), "opener": (None,),
+}
+
+
+def relevant_options(kwargs):
+    """the keyword arguments of an open / wrap event minus the neutral ones"""
+    return {k: v for k, v in kwargs.items() if not (k in NEUTRAL_OPEN_OPTIONS and not isinstance(v, (Sym, Opaque)) and v in NEUTRAL_OPEN_OPTIONS[k])}
+
+
 def register_reader(R):
     from swcgeom.utils.file import FileReader
 
@@ -433,9 +447,9 @@ def register_reader(R):
         if kind == "text-stream" or (kind == "path" and o["g_state"] == "entered-before"):
             return ops == [] and r is o["g_f0"]
         if kind == "byte-stream":
-            return (ops == ["wrap"] and ev[0]["handle"] is r and ev[0]["buffer"] is src and ev[0]["encoding"] is o["g_enc"] and ev[0]["kwargs"] == {})
+            return (ops == ["wrap"] and ev[0]["handle"] is r and ev[0]["buffer"] is src and ev[0]["encoding"] is o["g_enc"] and relevant_options(ev[0]["kwargs"]) == {})
         return (ops == ["open"] and ev[0]["handle"] is r and ev[0]["name"] is src and ev[0]["mode"] == "r" and ev[0]["encoding"] is o["g_enc"]
-                and ev[0]["kwargs"] == o["g_kw"])
+                and relevant_options(ev[0]["kwargs"]) == relevant_options(o["g_kw"]))
 
     def enter_lines(E, v, o):
         """the handle returned delivers the lines of the reader's source"""
@@ -652,7 +666,7 @@ def register_parse(R):
         ev = [e for e in IOX.events(E) if e["op"] in ("open", "wrap") and e.get("mode", "r") != "rb"]
         if kind == "text-stream":
             return ev == []
-        if len(ev) != 1 or ev[0]["op"] != ("wrap" if kind == "byte-stream" else "open") or ev[0].get("buffer", ev[0].get("name")) is not src or ev[0]["kwargs"] != {}:
+        if len(ev) != 1 or ev[0]["op"] != ("wrap" if kind == "byte-stream" else "open") or ev[0].get("buffer", ev[0].get("name")) is not src or relevant_options(ev[0]["kwargs"]) != {}:
             return False
         enc = ev[0]["encoding"]
         if o["encoding"] != "detect":
